@@ -101,7 +101,7 @@ def gen_cases(ctx, pe, ncases):
         tries += 1
         idx = len(cases)
         family = rng.choice(["unary", "binary", "binary", "binary", "ternary", "array", "cobs", "tree", "covobs"])
-        lay = obsutil.gen_layout(rng, nmin=5, nmax=18 if ctx.tier == "quick" else 60)
+        lay = obsutil.gen_layout(rng, nmin=5, nmax=18 if ctx.tier == "quick" else 60, mixed=True)
         mode = rng.choice(obsutil.DERIVE_MODES)
         rt = "tol30"
         try:
